@@ -9,7 +9,7 @@ from c02 import fixture_dir
 from execclient import Script, hx, by_index
 from runner import Failure, Outcome, h64
 from schema import (HAND, emit_schema, F_COMMENTS, F_IGNORE_UNKNOWN, F_NOCASE, F_MULTI, F_TITLE, F_LIST, F_KEYSTRVAL,
-                    o_int, o_str, o_list, o_sec, o_func, o_ptr, o_float, o_bool, o_simple)
+                    o_int, o_str, o_list, o_sec, o_func, o_ptr, o_float, o_bool, o_simple, CB_VALID, CB_PARSE)
 
 PUNCT = {"=", "+=", "{", "}", "(", ")", ","}
 
@@ -46,6 +46,19 @@ API_SCHEMA = [
 ]
 HAND["c07api"] = API_SCHEMA
 
+# option tables whose defaults cannot all be stored: a new section instance fails half way through its initialisation
+# (a default text that does not parse, a default the conversion refuses, a callback that refuses the default)
+_pre = lambda: [o_str("a", "x"), o_list("str", "l", "{p, q}"), o_sec("in", [o_str("w", "w0"), o_list("int", "wl", "{1, 2}")]), o_float("f", "2.5")]
+HAND["c07bad"] = [
+    o_int("i", 5), o_str("s", "dflt"),
+    o_sec("bm", _pre() + [o_list("int", "bad", "{1, 2")], F_MULTI | F_TITLE),
+    o_sec("bv", _pre() + [o_list("int", "bad", "{1, x}"), o_str("after", "z")], F_MULTI),
+    o_sec("outer", [o_int("k", 1), o_sec("bm", _pre() + [o_list("float", "bad", "{1.5, }}")], F_MULTI)]),
+    o_sec("cbm", _pre() + [o_list("int", "vl", "{8080, 80}", 0, CB_VALID), o_list("str", "pl", "{u, v}", 0, CB_PARSE), o_str("after", "z")], F_MULTI | F_TITLE),
+]
+HAND["c07badroot"] = [o_str("a", "x"), o_list("str", "l", "{p, q}"), o_sec("single", _pre() + [o_list("int", "bad", "{1, 2")]), o_int("i", 5)]
+HAND["c07badroot2"] = [o_str("a", "x"), o_list("str", "l", "{p, q}"), o_sec("in", [o_str("w", "w0")]), o_list("int", "bad", "{1, x}"), o_int("i", 5)]
+
 RICH = {
     "mixed": "#:note NL i = 3 NL /*:block_note il = { 1 , 2 , 3 } NL il += { 4 } NL sl = dq:one_two NL s = sq:it NL "
              "tm a { x = 1 zl = { 5 , } y = dq:q } NL tm b { } NL tm a { zl += 7 } NL single { x = 2 y = z } NL "
@@ -77,7 +90,8 @@ class C07:
             "titled sections, includes, pointer options, annotations, free-form keys) is cut after every token and has "
             "every token replaced by each of 12 corruptions, with and without search path / CFGF_COMMENTS, via buffer and "
             "file; Hypothesis adds generated texts with random cuts/corruptions; (b) API histories: all sequences up to "
-            "depth 2 (quick) / 3 (thorough) over a fixed alphabet of calls (incl. CFG_SIMPLE_* string and integer options) plus random histories up to length 10. "
+            "depth 2 (quick) / 3 (thorough) over a fixed alphabet of calls (incl. CFG_SIMPLE_* string and integer options) plus random histories up to length 10; "
+            "(c) option tables whose defaults cannot all be stored (unparsable / unconvertible default, refusing callback): new section instances by text and API, failing cfg_init. "
             "Oracle after cfg_free: allocation balance of confuse.c+lexer.c = 0, open streams = 0, descriptor count as "
             "before, every pointer value released exactly once, no sanitizer report. Non-trivial = abort point inside a "
             "function-call argument list, list, nested section, title or included file, or a history with remove-after-"
@@ -204,6 +218,32 @@ class C07:
                                           leakclass="abort-in-" + ctx))
         return cases
 
+    def bad_defaults(self):
+        """sections whose default initialisation fails part way (text and API), and contexts whose cfg_init() fails"""
+        cases = []
+        texts = ["bm t { }", "bm t { a = 1 }", "i = 1\nbm t { }\ni = 2\n", "bv { }", "bv { a = y }\nbv { }", "outer { bm { } }",
+                 "outer { k = 2\n bm { a = q } }\nbv { }\n", "s = v\nouter { k = 3 }\nbm u { l = { r } }\n", "cbm t { }\n"]
+        for flags in (0, F_COMMENTS):
+            for via in ("buf", "file"):
+                for tx in texts:
+                    cases.append({"schema": "c07bad", "flags": flags, "via": via, "tokens": [["raw", tx]], "then_print": True,
+                                  "classes": ["bad-default/text"], "nontrivial": True, "leakclass": "section-defaults-fail"})
+            for ops in ([["addtsec", 1, hx("bm"), hx("n")]], [["addtsec", 1, hx("bm"), hx("n")], ["addtsec", 1, hx("bm"), hx("n")]],
+                        [["parse_buf", 1, hx("outer { k = 4 }")], ["addtsec", 1, hx("outer|bm"), hx("n")], ["print", 1]],
+                        [["addtsec", 1, hx("cbm"), hx("ok")], ["addtsec", 1, hx("bm"), hx("n")], ["rmtsec", 1, hx("cbm"), hx("ok")]]):
+                cases.append({"schema": "c07bad", "flags": flags, "ops": ops, "classes": ["bad-default/api"], "nontrivial": True,
+                              "leakclass": "section-defaults-fail"})
+            # a callback refuses one of the defaults of the new instance (the k-th invocation)
+            for k in range(1, 6):
+                for mk in ([["addtsec", 1, hx("cbm"), hx("n")]], [["parse_buf", 1, hx("i = 2\ncbm t { a = 1 }\n")]],
+                           [["addtsec", 1, hx("cbm"), hx("m")], ["parse_buf", 1, hx("cbm t { }\ncbm m { }\n")]]):
+                    cases.append({"schema": "c07bad", "flags": flags, "ops": [["cbfail", k]] + mk + [["cbfail", 0], ["print", 1]],
+                                  "classes": ["bad-default/callback"], "nontrivial": True, "leakclass": "section-defaults-fail"})
+            for sc in ("c07badroot", "c07badroot2"):
+                cases.append({"schema": sc, "flags": flags, "ops": [], "classes": ["bad-default/cfg_init"], "nontrivial": True,
+                              "leakclass": "cfg_init-defaults-fail"})
+        return cases
+
     # API histories ------------------------------------------------------------------------
     def alphabet(self):
         fx = fixture_dir()
@@ -295,6 +335,7 @@ class C07:
 
     def run(self, r):
         r.run_cases(self.error_points(r.tier), chunksize=50)
+        r.run_cases(self.bad_defaults(), chunksize=10)
         r.run_cases(self.histories(2 if r.tier == "quick" else 3), chunksize=100)
         r.exhaustive = True
         r.run_hypothesis(20000 if r.tier == "quick" else 300000)
